@@ -75,7 +75,8 @@ def run(ck, fb, fbd):
         if name != "add_edge":
             ok = ok and "move(" in argtxt
         else:
-            ok = "_fromVertex" in argtxt and "_toVertex" in argtxt and argtxt.index("_fromVertex") < argtxt.index("_toVertex")
+            pn_ = [p["n"] for p in f.d["params"][:2]]
+            ok = pn_[0] in argtxt and pn_[1] in argtxt and argtxt.index(pn_[0]) < argtxt.index(pn_[1])
         (ck.ok if ok else lambda r, w, t: ck.violate(r, w, t, "C11.accept:%s:arg" % name))("C11.accept", f.loc(g["node"]), "%s stores the given definition (%s)" % (name, argtxt[:60]))
         # returns
         rets = [(b, i, x) for b, i, x in f.tops() if x.get("k") == "ret" and b in f.reach()]
@@ -162,8 +163,9 @@ def run(ck, fb, fbd):
 
 
 def topology_face(ck, f, reject):
-    need_names(f, ["i", "_topologyCheck"], None, "C11.topology")
+    need_names(f, ["i"], None, "C11.topology")
     p0 = f.d["params"][0]["n"]
+    ptc = f.d["params"][1]["n"]
     consecutive = closing = False
     for b, i, x in reject:
         for cnd, pol in atoms(f, b):
@@ -176,7 +178,7 @@ def topology_face(ck, f, reject):
                     closing = True
                 if "%" in cnd and ("(i < %s.size())" % p0, True) in atoms(f, b):
                     consecutive = closing = True
-        if not any("_topologyCheck" == cnd and pol is True for cnd, pol in atoms(f, b)) and any("to_vertex_handle(" in cnd for cnd, pol in atoms(f, b)):
+        if not any(ptc == cnd and pol is True for cnd, pol in atoms(f, b)) and any("to_vertex_handle(" in cnd for cnd, pol in atoms(f, b)):
             consecutive = False
     (ck.ok if consecutive else lambda r, w, t: ck.violate(r, w, t, "C11.topology:add_face:consecutive"))("C11.topology", f.where, "add_face rejects when to_vertex(h[i]) != from_vertex(h[i+1]) for every i with i+1 < size")
     (ck.ok if closing else lambda r, w, t: ck.violate(r, w, t, "C11.topology:add_face:closing"))("C11.topology", f.where, "add_face rejects when the last halfedge does not end where the first begins")
@@ -213,26 +215,26 @@ def topology_cell(ck, f, reject):
 
 
 def dedup(ck, c, f, reject):
-    need_names(f, ["_allowDuplicates", "_fromVertex", "_toVertex"], None, "C11.dedup")
+    pf, pt, pd = [p["n"] for p in f.d["params"][:3]]
     h = c.has_name([k for k, (kk, hf) in c.km.caches.items() if kk == "Vertex"][0])
     bu = lin = set()
     bu_ok = False
     lin_sets = []
     for b, i, x in reject:
         at = atoms(f, b)
-        if ("_allowDuplicates", False) not in at:
+        if (pd, False) not in at:
             continue
         if (h, True) in at:
-            if any("to_vertex() == _toVertex" in cnd and pol is True for cnd, pol in at):
+            if any("to_vertex() == %s" % pt in cnd and pol is True for cnd, pol in at):
                 bu_ok = True
         elif (h, False) in at:
             lin_sets.append(frozenset(cnd for cnd, pol in at if pol is True and ("from_vertex()" in cnd or "to_vertex()" in cnd)))
     # the cache branch walks the halfedges leaving the from-vertex
     idxs = [estr(n["i"]) for n, parents, pos in __import__("ovmverif.rule_g", fromlist=["iter_sites"]).iter_sites(f) if n.get("k") == "idx" and isinstance(unwrap(n["b"]), dict) and unwrap(n["b"]).get("f") in c.km.caches]
-    bu_ok = bu_ok and "_fromVertex" in idxs
-    (ck.ok if bu_ok else lambda r, w, t: ck.violate(r, w, t, "C11.dedup:cache"))("C11.dedup", f.where, "add_edge (vertex cache on) returns the edge of a halfedge leaving _fromVertex whose to_vertex() == _toVertex")
-    want1 = {"from_vertex() == _fromVertex", "to_vertex() == _toVertex"}
-    want2 = {"from_vertex() == _toVertex", "to_vertex() == _fromVertex"}
+    bu_ok = bu_ok and pf in idxs
+    (ck.ok if bu_ok else lambda r, w, t: ck.violate(r, w, t, "C11.dedup:cache"))("C11.dedup", f.where, "add_edge (vertex cache on) returns the edge of a halfedge leaving the from-vertex whose to_vertex() is the to-vertex")
+    want1 = {"from_vertex() == %s)" % pf, "to_vertex() == %s)" % pt}
+    want2 = {"from_vertex() == %s)" % pt, "to_vertex() == %s)" % pf}
 
     def has(s, want):
         return all(any(w in cnd for cnd in s) for w in want) and len(s) == 2
